@@ -245,6 +245,48 @@ fn default_limit_case(o: &mut Out, name: &str, payload: &[u8], true_len: Option<
     }
 }
 
+/// compressed (and uncompressed) international text read FROM A FILE: the payload runs to the end of the chunk, whatever bytes it contains -
+/// stored deflate blocks and short texts are full of zero bytes - and decompresses to exactly the text that was compressed
+fn itxt_from_file_cases(o: &mut Out, rng: &mut Rng, thorough: bool) {
+    use crate::pngbuild::*;
+    for k in 0..(if thorough { 600 } else { 60 }) {
+        let text: String = match k % 5 {
+            0 => String::new(),
+            1 => "a".repeat(rng.range(1, 40) as usize),
+            2 => (0..rng.range(1, 60)).map(|_| char::from_u32(*rng.pick(&[0x41u32, 0xe9, 0x20ac, 0x1f600, 0x7a, 0x20])).unwrap()).collect(),
+            3 => "x\u{0}y\u{0}\u{0}z".to_string(),
+            _ => (0..rng.range(50, 400)).map(|i| char::from(b'a' + (i % 26) as u8)).collect(),
+        };
+        let level = *rng.pick(&[0u32, 1, 6, 9]);
+        for compressed in [true, false] {
+            if !compressed && k % 5 != 3 && k % 5 != 2 { continue; }
+            let mut payload = b"Title\0".to_vec();
+            payload.push(compressed as u8);
+            payload.push(0);
+            payload.extend_from_slice(b"en\0");
+            payload.extend_from_slice("Titel".as_bytes());
+            payload.push(0);
+            if compressed { payload.extend_from_slice(&zlib_flate2(text.as_bytes(), level)); } else { payload.extend_from_slice(text.as_bytes()); }
+            let file = assemble(&[ihdr(1, 1, 8, 0, 0), Chunk::new(b"iTXt", payload), Chunk::new(b"IDAT", zlib_stored(&[0, 7], 2)), Chunk::new(b"IEND", vec![])]);
+            o.mark(&format!("itxt from file compressed={} level={} {}", compressed, level, hex(&file)));
+            o.direct_checks += 1;
+            o.count("itxt-from-file");
+            let r = guarded(|| -> Result<String, String> {
+                let rd = png::Decoder::new(std::io::Cursor::new(file.clone())).read_info().map_err(|e| format!("read_info: {}", e))?;
+                let t = rd.info().utf8_text.first().ok_or_else(|| "no iTXt reported".to_string())?.clone();
+                if t.keyword != "Title" || t.language_tag != "en" || t.translated_keyword != "Titel" || t.compressed != compressed { return Err(format!("fields differ: {:?}", (t.keyword.clone(), t.language_tag.clone(), t.translated_keyword.clone(), t.compressed))); }
+                t.get_text().map_err(|e| format!("get_text: {:?}", e))
+            });
+            match r {
+                Ok(Ok(got)) if got == text => {}
+                Ok(Ok(got)) => o.violation(viol("compressed-text-does-not-decompress-to-the-text", vec![("expected", jstr(&text.chars().take(200).collect::<String>())), ("got", jstr(&got.chars().take(200).collect::<String>())), ("compressed", compressed.to_string()), ("file", jstr(&hex(&file)))])),
+                Ok(Err(e)) => o.violation(viol("compressed-text-does-not-decompress-to-the-text", vec![("why", jstr(&e)), ("compressed", compressed.to_string()), ("level", level.to_string()), ("file", jstr(&hex(&file)))])),
+                Err(m) => o.violation(viol("text-call-panicked", vec![("why", jstr(&m)), ("file", jstr(&hex(&file)))])),
+            }
+        }
+    }
+}
+
 pub fn run(a: &Args) {
     let mut o = Out::new(&a.out);
     let mut rng = Rng::new(a.seed);
@@ -332,6 +374,7 @@ pub fn run(a: &Args) {
         default_limit_case(&mut o, name, p, *tl);
     }
     o.mark("done");
+    itxt_from_file_cases(&mut o, &mut rng, thorough);
     o.finish();
 }
 
